@@ -890,11 +890,17 @@ func (m *machine) apply(op *Op) (res result) {
 		}
 		raw := map[string]any{}
 		var list []any
+		var rawBufs [][]byte
 		for i, k := range op.Keys {
 			if _, dup := raw[k]; dup {
 				continue
 			}
-			if i%2 == 0 {
+			if i%3 == 2 && len(op.By) > 0 {
+				b := append([]byte{}, op.By...)
+				raw[k] = b
+				rawBufs = append(rawBufs, b)
+				list = append(list, pview.KV{Key: k, Val: valueNode("Bytes", "Bytes", pview.Of(append([]byte{}, op.By...)))})
+			} else if i%2 == 0 {
 				raw[k] = int64(i)
 				list = append(list, pview.KV{Key: k, Val: valueNode("Int", "Int", int64(i))})
 			} else {
@@ -903,7 +909,12 @@ func (m *machine) apply(op *Op) (res result) {
 			}
 		}
 		var err error
-		real = func() { err = rv.Interface().(pcommon.Map).FromRaw(raw) }
+		real = func() {
+			err = rv.Interface().(pcommon.Map).FromRaw(raw)
+			for _, b := range rawBufs {
+				pokeBytes(b)
+			}
+		}
 		model = func() bool {
 			if err != nil {
 				modelErr = "Map.FromRaw: " + err.Error()
@@ -936,7 +947,18 @@ func (m *machine) apply(op *Op) (res result) {
 			real = func() { v.SetBool(op.Bo) }
 			val = valueNode("Bool", "Bool", op.Bo)
 		case "SetEmptyBytes":
-			real = func() { v.SetEmptyBytes().FromRaw(op.By) }
+			real = func() {
+				b := append([]byte{}, op.By...)
+				v.SetEmptyBytes().FromRaw(b)
+				pokeBytes(b)
+			}
+			val = valueNode("Bytes", "Bytes", pview.Of(append([]byte{}, op.By...)))
+		case "FromRawBytes":
+			real = func() {
+				b := append([]byte{}, op.By...)
+				_ = v.FromRaw(b)
+				pokeBytes(b)
+			}
 			val = valueNode("Bytes", "Bytes", pview.Of(append([]byte{}, op.By...)))
 		case "SetEmptyMap":
 			real = func() { v.SetEmptyMap() }
@@ -954,7 +976,16 @@ func (m *machine) apply(op *Op) (res result) {
 				raw = append(raw, x)
 				l = append(l, valueNode("Int", "Int", x))
 			}
-			real = func() { _ = v.FromRaw(raw) }
+			var buf []byte
+			if len(op.By) > 0 {
+				buf = append([]byte{}, op.By...)
+				raw = append(raw, buf)
+				l = append(l, valueNode("Bytes", "Bytes", pview.Of(append([]byte{}, op.By...))))
+			}
+			real = func() {
+				_ = v.FromRaw(raw)
+				pokeBytes(buf)
+			}
 			val = valueNode("Slice", "Slice", l)
 		default:
 			return result{skipped: true}
@@ -984,7 +1015,13 @@ func (m *machine) apply(op *Op) (res result) {
 				s.Index(i).Set(elemFromInt(et, x))
 				l[i] = scalarToModel(s.Index(i))
 			}
-			real = func() { rv.MethodByName("FromRaw").Call([]reflect.Value{s}) }
+			real = func() {
+				rv.MethodByName("FromRaw").Call([]reflect.Value{s})
+				// the caller reuses its raw slice
+				for i := 0; i < s.Len(); i++ {
+					s.Index(i).Set(elemFromInt(et, op.Ints[i]+1))
+				}
+			}
 			model = func() bool { ref.set(l); return true }
 		case "psetat":
 			if op.N < 0 || op.N >= len(list) {
@@ -1057,4 +1094,13 @@ func trimStack(s string) string {
 		}
 	}
 	return strings.Join(keep, " | ")
+}
+
+// pokeBytes overwrites a raw buffer the harness handed to a FromRaw call: FromRaw
+// copies, so nothing reachable from a pdata value may change when the caller
+// reuses its buffer (two values filled from one buffer must stay independent).
+func pokeBytes(b []byte) {
+	for i := range b {
+		b[i] ^= 0xa5
+	}
 }
